@@ -114,6 +114,33 @@ class TlcResult:
 _BAD = re.compile(r'<<"VERIF_(BAD|INFO)",\s*(.*)>>\s*$')
 
 
+_TUP = re.compile(r'<<\s*"VERIF_(BAD|INFO)"\s*,')
+
+
+def _verif_tuples(out):
+    """<<"VERIF_BAD", ...>> tuples printed by the specs; TLC's pretty printer wraps tuples longer than 80 columns over
+    several lines, so the text is scanned for balanced << >> instead of line by line."""
+    pos = 0
+    while True:
+        m = _TUP.search(out, pos)
+        if not m:
+            return
+        depth, i = 1, m.end()
+        while i < len(out) - 1 and depth > 0:
+            two = out[i:i + 2]
+            if two == "<<":
+                depth, i = depth + 1, i + 2
+            elif two == ">>":
+                depth, i = depth - 1, i + 2
+            elif out[i] == '"':
+                j = out.find('"', i + 1)
+                i = (j + 1) if j > 0 else len(out)
+            else:
+                i += 1
+        yield m.group(1), " ".join(out[m.end():i - 2].split())
+        pos = i
+
+
 def _parse_tla_tuple(body):
     # body: comma separated TLA+ literals (strings / ints / booleans); good enough for our reports
     out = []
@@ -168,11 +195,8 @@ def tlc(module, cfg, workdir=None, workers=None, timeout=600, env_extra=None, ex
         r.error = "timeout after %ss" % timeout
     r.wall = time.time() - t0
     r.output = out
-    for line in out.splitlines():
-        m = _BAD.search(line)
-        if m:
-            tup = _parse_tla_tuple(m.group(2))
-            (r.bad if m.group(1) == "BAD" else r.info).append(tup)
+    for kind, body in _verif_tuples(out):
+        (r.bad if kind == "BAD" else r.info).append(_parse_tla_tuple(body))
     m = re.findall(r"(\d[\d,]*) states generated, (\d[\d,]*) distinct states found", out)
     if m:
         r.generated = int(m[-1][0].replace(",", ""))
